@@ -1,4 +1,6 @@
 import TetlProofs.C15.Lemmas
+import TetlProofs.C15.RatioAsm
+import TetlProofs.C15.RatioLess
 namespace Tetl.C15.Props
 open Tetl Tetl.C15 CType
 
@@ -402,7 +404,91 @@ theorem digits10_eq_spec (d : Nat) (h : d < 103) : d * 3 / 10 = Spec.log10Floor 
 /-- the approximation 3/10 for log10 2 stops being exact at 103 value bits -/
 theorem digits10_counterexample : ¬ (2 ^ 103 < 10 ^ (103 * 3 / 10 + 1)) := by decide
 
-/-! ### ratio: see the end of the file -/
+/-! ### ratio ([ratio.ratio], [ratio.arithmetic], [ratio.comparison]) — after the three `fix:` commits
+
+`Rat.Valid r`: `r` is what an instantiated `ratio<N, D>` is (`mkRatio_valid`): lowest terms, positive denominator, members
+in `[-INTMAX_MAX, INTMAX_MAX]`.  `Rat.ofQ q` is the specialisation `ratio<q.1, q.2>` whose members equal its template
+arguments.  `Spec.add/sub/mul/div` return the exact rational result in lowest terms, or an error iff a member of it is not
+representable (or the divisor is zero); `isErr` = "the instantiation is ill-formed". -/
+
+/-- `Spec.reduce n d` is `n/d` in lowest terms with a positive denominator -/
+theorem reduce_lowest_terms (n d : Int) (hd : d ≠ 0) :
+    0 < (Spec.reduce n d).2 ∧ Int.gcd (Spec.reduce n d).1 (Spec.reduce n d).2 = 1 ∧
+    (Spec.reduce n d).1 * d = n * (Spec.reduce n d).2 := RA.reduce_spec n d hd
+
+/-- `ratio<n, d>`: the members are `n/d` in lowest terms with a positive denominator, for all template arguments the
+    standard admits (`d ≠ 0`, both in `[-INTMAX_MAX, INTMAX_MAX]`) -/
+theorem mkRatio_eq (n d : Int) (hn : Spec.argOk n = true) (hd : Spec.argOk d = true) (h0 : d ≠ 0) :
+    mkRatio n d = .ok ⟨(Spec.reduce n d).1, (Spec.reduce n d).2, n, d⟩ := RA.mkRatio_eq n d hn hd h0
+example : Spec.argOk (-6) = true ∧ Spec.argOk (-4) = true ∧ (-4 : Int) ≠ 0 ∧ Spec.reduce (-6) (-4) = (3, 2) := by decide
+
+/-- … and ill-formed for every other pair of `intmax_t` arguments (`ratio<N, 0>`, `INTMAX_MIN`) -/
+theorem mkRatio_illformed (n d : Int) (hn : inI n) (hd : inI d)
+    (h : ¬ (Spec.argOk n = true ∧ Spec.argOk d = true ∧ d ≠ 0)) : isErr (mkRatio n d) := RA.mkRatio_err n d hn hd h
+example : inI 1 ∧ inI 0 ∧ ¬ (Spec.argOk 1 = true ∧ Spec.argOk 0 = true ∧ (0 : Int) ≠ 0) := by decide
+
+/-- every instantiated `ratio` is `Valid` -/
+theorem mkRatio_valid (n d : Int) (r : Rat) (hn : inI n) (hd : inI d) (h : mkRatio n d = .ok r) :
+    r.Valid ∧ r.tn = n ∧ r.td = d ∧ r.q = Spec.reduce n d := RA.mkRatio_valid n d r hn hd h
+
+/-- `R::type` names the specialisation whose template arguments are its members -/
+theorem ratioType_canonical (r : Rat) (h : r.Valid) :
+    r.type = .ok (Rat.ofQ r.q) ∧ (Rat.ofQ r.q).canonical = true :=
+  ⟨RA.type_eq r h, by simp [Rat.canonical, Rat.ofQ]⟩
+example : (⟨-3, 4, 6, -8⟩ : Rat).Valid := by decide
+
+/-- `ratio_add<R1, R2>` is the specialisation of the exact sum in lowest terms whenever that sum is representable:
+    no intermediate of `detail::ratio_add_impl` overflows -/
+theorem ratioAdd_eq (a b : Rat) (ha : a.Valid) (hb : b.Valid) (q : Spec.Q) (h : Spec.add a.q b.q = .ok q) :
+    ratioAdd a b = .ok (Rat.ofQ q) := RatioAsm.ratioAdd_ok a b ha hb q h
+/-- … and ill-formed whenever it is not -/
+theorem ratioAdd_illformed (a b : Rat) (ha : a.Valid) (hb : b.Valid) (h : isErr (Spec.add a.q b.q)) :
+    isErr (ratioAdd a b) := RatioAsm.ratioAdd_err a b ha hb h
+/-- the witness of the former finding F-C15-ratio-intermediate-overflow: 1/2^62 + 1/2^62 = 1/2^61 -/
+example : (⟨1, 2 ^ 62, 1, 2 ^ 62⟩ : Rat).Valid ∧ Spec.add ((1 : Int), (2 : Int) ^ 62) (1, 2 ^ 62) = .ok (1, 2 ^ 61) := by decide
+/-- non-vacuity of the ill-formed case: INTMAX_MAX + 1 -/
+example : isErr (Spec.add ((2 : Int) ^ 63 - 1, (1 : Int)) (1, 1)) := by decide
+
+theorem ratioSub_eq (a b : Rat) (ha : a.Valid) (hb : b.Valid) (q : Spec.Q) (h : Spec.sub a.q b.q = .ok q) :
+    ratioSub a b = .ok (Rat.ofQ q) := RatioAsm.ratioSub_ok a b ha hb q h
+theorem ratioSub_illformed (a b : Rat) (ha : a.Valid) (hb : b.Valid) (h : isErr (Spec.sub a.q b.q)) :
+    isErr (ratioSub a b) := RatioAsm.ratioSub_err a b ha hb h
+/-- a Bezout-type cancellation: 2^62/(2^31-1) - (2^62+2^31+1)/2^31 … sample hypothesis evaluation (a test) -/
+example : Spec.sub ((7 : Int), (12 : Int)) (1, 4) = .ok (1, 3) := by decide
+
+/-- `ratio_multiply<R1, R2>` (common factors cancelled first) -/
+theorem ratioMul_eq (a b : Rat) (ha : a.Valid) (hb : b.Valid) (q : Spec.Q) (h : Spec.mul a.q b.q = .ok q) :
+    ratioMul a b = .ok (Rat.ofQ q) := RA.ratioMul_ok a b ha hb q h
+theorem ratioMul_illformed (a b : Rat) (ha : a.Valid) (hb : b.Valid) (h : isErr (Spec.mul a.q b.q)) :
+    isErr (ratioMul a b) := RA.ratioMul_err a b ha hb h
+/-- 2^62 * 1/2^62 = 1 (the unreduced product 2^124 is not representable) -/
+example : (⟨2 ^ 62, 1, 2 ^ 62, 1⟩ : Rat).Valid ∧ Spec.mul ((2 : Int) ^ 62, (1 : Int)) (1, 2 ^ 62) = .ok (1, 1) := by decide
+
+/-- `ratio_divide<R1, R2>`; division by a zero ratio is ill-formed (`Spec.div` is an error then) -/
+theorem ratioDiv_eq (a b : Rat) (ha : a.Valid) (hb : b.Valid) (q : Spec.Q) (h : Spec.div a.q b.q = .ok q) :
+    ratioDiv a b = .ok (Rat.ofQ q) := RA.ratioDiv_ok a b ha hb q h
+theorem ratioDiv_illformed (a b : Rat) (ha : a.Valid) (hb : b.Valid) (h : isErr (Spec.div a.q b.q)) :
+    isErr (ratioDiv a b) := RA.ratioDiv_err a b ha hb h
+example : isErr (Spec.div ((1 : Int), (2 : Int)) (0, 1)) ∧ Spec.div ((1 : Int), (2 : Int)) (-3, 4) = .ok (-2, 3) := by decide
+
+/-- `ratio_equal` (member-wise comparison) is equality of the rational numbers -/
+theorem ratioEqual_eq (a b : Rat) (ha : a.Valid) (hb : b.Valid) : ratioEqual a b = Spec.equal a.q b.q :=
+  RA.ratioEqual_eq a b ha hb
+theorem ratioNotEqual_eq (a b : Rat) (ha : a.Valid) (hb : b.Valid) : ratioNotEqual a b = !Spec.equal a.q b.q := by
+  unfold ratioNotEqual; rw [RA.ratioEqual_eq a b ha hb]
+
+/-- the ordering traits compare the exact rational numbers for all operands (`detail::ratio_less_impl` forms no product,
+    terminates within `R1::den + 1` iterations and never overflows) -/
+theorem ratioLess_eq (a b : Rat) (ha : a.Valid) (hb : b.Valid) : ratioLess a b = .ok (Spec.less a.q b.q) :=
+  RC.ratioLess_eq a b ⟨ha.1, ha.2.2⟩ ⟨hb.1, hb.2.2⟩
+theorem ratioLessEqual_eq (a b : Rat) (ha : a.Valid) (hb : b.Valid) : ratioLessEqual a b = .ok (!Spec.less b.q a.q) :=
+  RC.ratioLessEqual_eq a b ⟨ha.1, ha.2.2⟩ ⟨hb.1, hb.2.2⟩
+theorem ratioGreater_eq (a b : Rat) (ha : a.Valid) (hb : b.Valid) : ratioGreater a b = .ok (Spec.less b.q a.q) :=
+  RC.ratioGreater_eq a b ⟨ha.1, ha.2.2⟩ ⟨hb.1, hb.2.2⟩
+theorem ratioGreaterEqual_eq (a b : Rat) (ha : a.Valid) (hb : b.Valid) : ratioGreaterEqual a b = .ok (!Spec.less a.q b.q) :=
+  RC.ratioGreaterEqual_eq a b ⟨ha.1, ha.2.2⟩ ⟨hb.1, hb.2.2⟩
+/-- the witness of the former wrap-around: 2^62 < 1/2^62 is false -/
+example : (⟨1, 2 ^ 62, 1, 2 ^ 62⟩ : Rat).Valid ∧ Spec.less ((2 : Int) ^ 62, (1 : Int)) (1, 2 ^ 62) = false := by decide
 
 /-! ### non-vacuity: the hypotheses hold on non-trivial values -/
 
